@@ -166,6 +166,10 @@ def reformat_files(
             "Cannot specify output file when processing multiple files (use --inplace instead)"
         )
 
+    if inplace and "-" in files:
+        # Reject the whole run before any file is rewritten.
+        raise ValueError("Cannot use `inplace` with stdin")
+
     for file_path in files:
         if inplace:
             # Process each file in-place
